@@ -3,6 +3,7 @@ from hypothesis import strategies as st
 
 from harness import strategies as S
 from harness import tk
+from harness import msglife
 from harness.core import Sub, Violation, check, Failure
 from refs.ref_trxd import MODS, HYPERFRAME
 
@@ -10,7 +11,10 @@ RULE = ("valid Tx/Rx messages drawn constructively over the full field ranges (b
         "versions, all six modulations, NOPE yes/no, legacy padding yes/no, three buffer types; oracle: "
         "parse(gen(m)) equals m field by field (+ v0 legacy/non-legacy metamorphic equality). Every valid "
         "message is non-trivial; distinct = distinct case (message+legacy+buffer type). Enumerations: every "
-        "soft-bit value at several positions, every (modulation,TSC set,TSC,NOPE) MTS combination, FN boundaries x TN.")
+        "soft-bit value at several positions, every (modulation,TSC set,TSC,NOPE) MTS combination, FN boundaries x TN. "
+        "Histories: message_sequences (several messages through re-used parser objects, refused messages in between) and object_life "
+        "(ONE message object changed in place between encodings - header fields, burst elements / slices, burst replaced, burst <-> NOPE - "
+        "each encoding decoded by a fresh object must give the object's current content).")
 LEVEL = "exploration"
 ASSUMPTIONS = [
     "symmetric encoder/decoder errors are invisible to a round trip (C04 compares with an independent layout)",
@@ -218,9 +222,40 @@ seq_case = st.fixed_dictionaries({
 })
 
 
+def life_oracle(case):
+    """ONE message object changed in place between encodings (fields, burst elements, burst replaced, burst <-> NOPE):
+    decoding each encoding with a fresh object must give the object's CURRENT content"""
+    msg, m = msglife.start(tk, case)
+    n_enc = 0
+    changes = []
+    for k, op in enumerate(case["ops"]):
+        if op[0] != "encode":
+            r = msglife.apply_op(tk, msg, m, op)
+            if r:
+                changes.append(r)
+            continue
+        try:
+            enc = bytes(msg.gen_msg(bool(op[1])))
+        except ValueError as e:
+            raise Violation("c01:life:valid-message-refused", "step %d: %r" % (k, e))
+        n_enc += 1
+        try:
+            got = decode_with_toolkit(m["cls"], enc, "bytearray")
+        except ValueError as e:
+            raise Violation("c01:life:own-encoding-rejected", "step %d: %r" % (k, e))
+        for f, v in expected_fields(m).items():
+            if got.get(f) != v:
+                raise Violation("c01:field-differs:%s:%s:after-in-place-change" % (m["cls"], f),
+                                "encoding %d of one object (step %d, after changes %r): field %s is %r, decoded %r" % (
+                                    n_enc, k, changes[-4:], f, _short(v), _short(got.get(f))))
+    return (["life/%s/v%d" % (m["cls"], m["ver"])] + sorted(set(changes)), n_enc >= 2 and bool(changes),
+            {"cls": m["cls"], "ver": m["ver"], "ops": [o[0] for o in case["ops"]]})
+
+
 SUBS = [
+    Sub("object_life", strategy=msglife.life_case, oracle=life_oracle, examples={"quick": 1000, "thorough": 40000}),
     Sub("roundtrip", strategy=case_st, oracle=roundtrip, examples={"quick": 4000, "thorough": 160000}),
     Sub("enumerations", fn=enumerations),
     Sub("message_sequences", strategy=seq_case, oracle=sequence_oracle, examples={"quick": 700, "thorough": 30000}),
 ]
-SUBS[1].replay = roundtrip
+SUBS[2].replay = roundtrip
